@@ -642,7 +642,10 @@ func OracleTypes(prop string, v *View) []Violation {
 				vv.Shape += "; in a list literal of differently shaped objects"
 			}
 			add(vv)
-		} else if c.Err != "" && strings.Contains(c.Err, "resolve expressions") && len(v.Facts.RunError) == 0 {
+		} else if c.Err != "" && strings.Contains(c.Err, "resolve expressions") && len(v.Facts.RunError) == 0 &&
+			!(c.Cancelled && strings.Contains(c.Err, "not found")) {
+			// (a cancelled run may produce error-path outputs the uncancelled model does not have - a loop
+			// whose items were aborted - and looking up an item that is not in them fails legitimately)
 			// the workflow was accepted, every value has the declared type according to the model, and still
 			// an expression cannot be evaluated: some value does not have its declared type
 			add(viol(prop, "evaluation-fails-on-declared-types", msgClass(c.Err), "an accepted workflow failed to evaluate although the model finds no run-time fault: %s", c.Err))
